@@ -1,21 +1,23 @@
-(* Savepoint.v — savepoints around the Layer-B machine.  The database is restored by ROLLBACK TO
-   SAVEPOINT; no listener of the package runs (manager.clear returns early inside a nested
-   transaction, the engine 'rollback' event is not fired), so the unit of work is left as it is. *)
+(* Savepoint.v — savepoints around the Layer-B machine.  ROLLBACK TO SAVEPOINT restores the database;
+   since the repair of F-C06-savepoint-inner-flush the manager remembers the state of the unit of work
+   when a nested transaction begins (after_transaction_create) and brings it back when the nested
+   transaction is rolled back (after_soft_rollback): transaction object, operations, pending
+   statements, version objects. *)
 From Continuum Require Export Model.Base Model.VTable Model.Core.
 
 Inductive mev := MCore (e : ev) | SpBegin | SpRollback | SpRelease.
-Record mstate := mkms { m_core : state; m_sps : list db }.
+Record mstate := mkms { m_core : state; m_sps : list (db * uow) }.
 
-Definition with_db (s : state) (d : db) : state := mks d (s_committed s) (s_uow s) (s_err s).
+Definition with_saved (s : state) (du : db * uow) : state := mks (fst du) (s_committed s) (snd du) (s_err s).
 
 Definition mstep (g : cfg) (m : mstate) (e : mev) : mstate :=
   match e with
   | MCore Commit => mkms (step g (m_core m) Commit) []
   | MCore Rollback => mkms (step g (m_core m) Rollback) []
   | MCore e' => mkms (step g (m_core m) e') (m_sps m)
-  | SpBegin => mkms (m_core m) (s_db (m_core m) :: m_sps m)
+  | SpBegin => mkms (m_core m) ((s_db (m_core m), s_uow (m_core m)) :: m_sps m)
   | SpRollback => match m_sps m with
-                  | d :: rest => mkms (with_db (m_core m) d) rest
+                  | du :: rest => mkms (with_saved (m_core m) du) rest
                   | [] => m end
   | SpRelease => match m_sps m with _ :: rest => mkms (m_core m) rest | [] => m end
   end.
